@@ -178,6 +178,8 @@ impl Monitor {
         Self::init_current(monitor);
         let notify_queue = unsafe { &*monitor.notify_queue.get() };
         while MonitorState::Running == monitor.state.get() || !notify_queue.is_empty() {
+            #[cfg(feature = "verif")]
+            crate::verif::point("mon:scan:enter");
             //只遍历，不删除，如果抢占调度失败，会在1ms后不断重试，相当于主动检测
             for node in notify_queue {
                 if now() < node.timestamp {
@@ -208,6 +210,8 @@ impl Monitor {
                     }
                 }
             }
+            #[cfg(feature = "verif")]
+            crate::verif::point("mon:scan:exit");
             //monitor线程不执行协程计算任务，每次循环至少wait 1ms
             monitor.blocker.clone().block(Duration::from_millis(1));
         }
@@ -345,7 +349,11 @@ impl Monitor {
                 };
             }
         }
+        #[cfg(feature = "verif")]
+        crate::verif::point("mon:insert:enter");
         _ = queue.insert(node);
+        #[cfg(feature = "verif")]
+        crate::verif::point("mon:insert:exit");
         instance.blocker.notify();
         Ok(node)
     }
@@ -353,6 +361,15 @@ impl Monitor {
     fn remove(node: &NotifyNode) -> bool {
         let instance = Self::get_instance();
         let queue = unsafe { &mut *instance.notify_queue.get() };
+        #[cfg(feature = "verif")]
+        crate::verif::point("mon:remove:enter");
+        #[cfg(feature = "verif")]
+        let removed = queue.remove(node);
+        #[cfg(feature = "verif")]
+        crate::verif::point("mon:remove:exit");
+        #[cfg(feature = "verif")]
+        return removed;
+        #[cfg(not(feature = "verif"))]
         queue.remove(node)
     }
 }
